@@ -512,8 +512,8 @@ func inheritCommonProperties(parent, child parse.Node, fromAugment bool) {
 
 func (c *Compiler) assertReferenceStatus(src, dst parse.Node, parentStatus schema.Status) {
 
-	// Only check within the same module
-	if src.Root() != dst.Root() {
+	// Only check within the same module (of which its submodules are part)
+	if c.owningModule(src.Root()) != c.owningModule(dst.Root()) {
 		return
 	}
 
@@ -577,7 +577,7 @@ func (c *Compiler) applyUsesToNode(mod, nod, use parse.Node, parentStatus schema
 	}
 
 	var assertRef func(parse.Node)
-	if use.Root() == group.Root() {
+	if c.owningModule(use.Root()) == c.owningModule(group.Root()) {
 		c.assertReferenceStatus(use, group, parentStatus)
 		assertRef = func(dst parse.Node) {
 			c.assertReferenceStatus(use, dst, parentStatus)
